@@ -237,7 +237,8 @@ const header = "From FoxBase Require Import Bytes.\nFrom FoxPattern Require Impo
 const footer = "Definition vs := Eval vm_compute in verdicts cases.\n" +
 	"Definition mism := Eval vm_compute in mismatches vs.\nPrint mism.\n" +
 	"Definition viol := Eval vm_compute in spec_violations vs.\nPrint viol.\n" +
-	"Definition oof := Eval vm_compute in fuel_outs vs.\nPrint oof.\n"
+	"Definition oof := Eval vm_compute in fuel_outs vs.\nPrint oof.\n" +
+	"Definition known_c10_underscore_hostname := Eval vm_compute in known_underscores vs.\nPrint known_c10_underscore_hostname.\n"
 
 // write splits the items into at most `shards` contiguous files of similar weight.
 func (c *collector) write(dir string, shards int) error {
@@ -592,8 +593,9 @@ func genHost(rnd *hx.Rand, mk int) string {
 			ls = append(ls, strings.Repeat(string("abz09"[rnd.Intn(5)]), 61+rnd.Intn(3)))
 		}
 		ls = append(ls, strings.Repeat("c", 58+rnd.Intn(8)))
-		if rnd.Pct(30) {
-			ls = append(ls, "{p}")
+		if rnd.Pct(40) {
+			k := rnd.Intn(len(ls) + 1)
+			ls = append(ls[:k], append([]string{"{p}"}, ls[k:]...)...)
 		}
 		return strings.Join(ls, ".")
 	}
@@ -665,7 +667,25 @@ func main() {
 	out := args["out"]
 	tier := args["tier"]
 	shards := hx.Atoi(args["shards"], 16)
-	rnd := hx.NewRand(hx.Seed())
+	seed := hx.Seed()
+	if rp := args["replay"]; rp != "" && !strings.HasPrefix(rp, "block:") {
+		// a violation file written by bin/check: re-run the stream that produced it
+		if b, err := os.ReadFile(rp); err == nil {
+			var v struct {
+				Seed uint64 `json:"seed"`
+				Tier string `json:"tier"`
+			}
+			if json.Unmarshal(b, &v) == nil {
+				if v.Seed != 0 {
+					seed = v.Seed
+				}
+				if v.Tier != "" {
+					tier = v.Tier
+				}
+			}
+		}
+	}
+	rnd := hx.NewRand(seed)
 	col := &collector{}
 	st := &hx.Stats{Rule: "cases: exhaustive strings over {a 1 - . / { } *} x 16 limit pairs (maxParams, maxParamKeyBytes in {0,1,2,65535}); seeded structured patterns (hostnames with labels crossing 63 bytes / totals crossing 255, names around the key limit, mutated) and arbitrary byte strings under random limit pairs; parseWildcard on keys cut at token boundaries from accepted patterns; accepted patterns registered alone and requested with instantiated wildcards. non-trivial = the pattern has a '/', no leading '.'/'-', and a hostname part or a wildcard opener (it reaches the state machine proper); distinct = distinct (pattern, limits) inputs"}
 	es := newEnvs()
